@@ -1,0 +1,25 @@
+//go:build verif
+
+// Contracts for the verification machinery in /verif (comment-only; no code).
+// sshswarm: an Ask succeeds only with the whole reply.
+
+package sshswarm
+
+//@ func (*Swarm).Ask
+//@   noframe
+//@   ghostvar replylen = 0 - 1
+//@   ensures [whole] ret1 == nil ==> ret0 == ghost(replylen)
+//@   ensures [oversize] old(sumlen(lens(data), len(data))) > 131072 ==> ret1 != nil
+//@   after call (*Conn).Send:
+//@     set replylen = len(res0)
+//@
+//@ // connection table and SSH transport: not modelled
+//@ func (*Swarm).getConn
+//@   trusted
+//@   noframe
+//@   ensures ret1 == nil ==> ret0 != nil
+//@
+//@ func (*Conn).Send
+//@   trusted
+//@   noframe
+//@   requires c != nil
